@@ -1,8 +1,428 @@
-import Isotp.Process
+import Isotp.Proofs.Req
 /-
-  C12 — property theorems (see DESIGN.md §6). Helper lemmas live in Isotp/Proofs.
+  C12 — every send request terminates exactly once with the right outcome.
+
+  Vocabulary (defined in `Isotp/Proofs/Req.lean`, namespace `Isotp.C12`):
+  * `pendingIds s`  : id of the request in transmission (`active`), then the ids queued in `txQueue`;
+  * `doneIds s`     : ids of the `Ev.done id ok` events (`SendRequest.complete(ok)`) of the log, oldest first;
+  * `accounted s`   : `doneIds s ++ pendingIds s`;
+  * `Op`, `step`, `run`, `accepted` : histories of public API calls and the ids `send` accepted in them;
+  * `WF s`          : the configuration passed `Params.validate` (`s.cfg.valid`);
+  * `Inv s`         : transmit invariant — idle FSM ⇒ no active request; queued requests have an untouched
+                      generator; the active request is depleted only while its Single Frame waits in standby;
+  * `Good s := WF s ∧ Inv s` : holds initially and after every operation (`good_step`, `good_run`);
+  * `Justified s out id` : why a successful completion logged by a `_process_tx` call is legitimate.
+
+  Why `WF` is needed at all: if `_make_tx_msg` raised `ValueError` in the IDLE branch of `_process_tx`,
+  `active_send_request` would stay set with `tx_state = IDLE` and the next pass would overwrite (lose) it.
+  `makeTxMsg_isSome` shows this cannot happen with validated parameters.
 -/
 namespace Isotp.C12
 open Isotp State
 
+/-! ## 1. Conservation: no request is lost, duplicated or completed twice -/
+
+/-- `_process_rx` moves no request. -/
+theorem conserved_processRx (s : State) (m : CanMsg) : accounted (s.processRx m).1 = accounted s :=
+  accounted_of_key (processRx_key s m)
+
+theorem conserved_checkTimeoutsRx (s : State) : accounted s.checkTimeoutsRx = accounted s :=
+  accounted_of_key (checkTimeoutsRx_key s)
+
+/-- `_process_tx`, all branches (pending FC, Overflow / Wait / CTS Flow Control, N_Bs timeout, the
+    "depleted and no standby" line, the queue loop with empty payloads, SF / FF / standby, BadGenerator,
+    Consecutive Frames): the list *completed ++ in transmission ++ queued* is unchanged. -/
+theorem conserved_processTx (s : State) (h : Idle s) : accounted s.processTx.1 = accounted s :=
+  processTx_acc s h
+
+/-- without the hypothesis the statement is false: an active request in an idle FSM is overwritten -/
+example : ∃ s : State, accounted s.processTx.1 ≠ accounted s :=
+  ⟨{ State.init {} ⟨default, default⟩ with
+      active := some { id := 1, size := 1, src := [0] }, txQueue := [{ id := 2, size := 1, src := [0] }] },
+   by decide +kernel⟩
+
+theorem conserved_rxLoop (doTx : Bool) (s : State) (st : Stats) (l : List (Nat × CanMsg)) :
+    accounted (rxLoop doTx s st l).1 = accounted s :=
+  accounted_of_key (rxLoop_key doTx s st l)
+
+theorem conserved_txLoop (f : Nat) (s : State) (n : Nat) (g : Good s) :
+    accounted (txLoop f s n).1 = accounted s :=
+  (txLoop_keeps f s n g).2
+
+theorem conserved_processLoop (f : Nat) (doRx doTx : Bool) (s : State) (st : Stats) (g : Good s) :
+    accounted (processLoop f doRx doTx s st).1 = accounted s :=
+  (processLoop_keeps f doRx doTx s st g).2
+
+/-- `process(do_rx, do_tx)` -/
+theorem conserved_process (s : State) (doRx doTx : Bool) (g : Good s) :
+    accounted (s.process doRx doTx).1 = accounted s :=
+  (process_keeps s doRx doTx g).2
+
+/-- `_stop_sending(success)`: the active request, if any, moves from pending to done. -/
+theorem conserved_stopSending (s : State) (b : Bool) : accounted (s.stopSending b) = accounted s :=
+  stopSending_acc s b
+
+theorem conserved_stopReceiving (s : State) : accounted s.stopReceiving = accounted s := rfl
+
+theorem conserved_recv (s : State) : accounted s.recv.1 = accounted s :=
+  accounted_of_key (by unfold recv; split <;> rfl)
+
+theorem conserved_advance (s : State) (dt : Nat) : accounted (s.advance dt) = accounted s := rfl
+
+theorem conserved_pushFrame (s : State) (dt : Nat) (m : CanMsg) : accounted (s.pushFrame dt m) = accounted s := rfl
+
+/-- `reset()` completes the queue first and the active request last: a permutation. -/
+theorem conserved_reset (s : State) : (accounted s.reset).Perm (accounted s) := reset_perm s
+
+/-- an accepted `send` (returns normally, or `BlockingSendTimeout` in the model of `send_timeout=0`)
+    adds exactly its id -/
+theorem send_accepted (s : State) (a : SendArgs) (h : (s.send a).2 ≠ some .ValueError) :
+    accounted (s.send a).1 = accounted s ++ [a.id] :=
+  send_accepted_acc s a h
+
+/-- a rejected `send` changes nothing -/
+theorem send_rejected (s : State) (a : SendArgs) (h : (s.send a).2 = some .ValueError) : (s.send a).1 = s := by
+  rcases send_cases s a with ⟨-, h2⟩ | ⟨h1, -, -⟩
+  · exact h2
+  · rw [h] at h1; split at h1 <;> simp at h1
+
+/-- `Good` is inductive: true of a new layer with validated parameters, kept by every API call. -/
+theorem good_init (c : Cfg) (a : Addr) (hc : c.valid = true) : Good (State.init c a) := init_good c a hc
+
+theorem good_step (s : State) (op : Op) (g : Good s) : Good (step s op) := step_good s op g
+
+theorem good_run (s : State) (ops : List Op) (g : Good s) : Good (run s ops) := run_good s ops g
+
+/-- conservation along any history -/
+theorem conserved_run (s : State) (ops : List Op) (g : Good s) :
+    (accounted (run s ops)).Perm (accounted s ++ accepted s ops) :=
+  run_accounted s ops g
+
+/-- **Exactly once.** Any history of API calls on a new layer, the ids given to accepted `send` calls
+    being pairwise distinct: completed + pending ids are exactly the accepted ids; no id is completed
+    twice; an accepted id is either still pending (and not completed) or completed exactly once (and no
+    longer pending); nothing else is ever completed. -/
+theorem exactly_once (c : Cfg) (a : Addr) (hc : c.valid = true) (ops : List Op)
+    (hd : (accepted (State.init c a) ops).Nodup) :
+    let s := run (State.init c a) ops
+    (accounted s).Perm (accepted (State.init c a) ops) ∧
+    (doneIds s).Nodup ∧ (pendingIds s).Nodup ∧
+    (∀ id ∈ accepted (State.init c a) ops,
+      (id ∈ pendingIds s ∧ id ∉ doneIds s) ∨ (id ∉ pendingIds s ∧ (doneIds s).count id = 1)) ∧
+    (∀ id ∈ doneIds s, id ∈ accepted (State.init c a) ops) := by
+  intro s
+  have hp : (accounted s).Perm (accepted (State.init c a) ops) := run_init_accounted c a hc ops
+  have hn : (accounted s).Nodup := hp.nodup_iff.2 hd
+  have hn' := hn
+  unfold accounted at hn'
+  rw [List.nodup_append] at hn'
+  obtain ⟨h1, h2, h3⟩ := hn'
+  refine ⟨hp, h1, h2, ?_, ?_⟩
+  · intro id hid
+    have hmem : id ∈ accounted s := hp.mem_iff.2 hid
+    unfold accounted at hmem
+    rcases List.mem_append.1 hmem with hm | hm
+    · right
+      exact ⟨fun hpd => h3 id hm id hpd rfl, by rw [h1.count, if_pos hm]⟩
+    · left
+      exact ⟨hm, fun hdn => h3 id hdn id hm rfl⟩
+  · intro id hid
+    exact hp.mem_iff.1 (by unfold accounted; exact List.mem_append_left _ hid)
+
+/-! ## 2. Aborts complete the request with failure -/
+
+/-- `stop_sending()` / `_stop_sending(success)` with a request in transmission -/
+theorem abort_stopSending (s : State) (r : Req) (h : s.active = some r) :
+    (s.stopSending false).log = .done r.id false :: s.log ∧ (s.stopSending false).active = none ∧
+      (s.stopSending false).txState = .idle ∧ (s.stopSending false).txQueue = s.txQueue :=
+  stopSending_abort s r false h
+
+/-- `reset()`: every pending request (in transmission or queued) is completed with failure, nothing
+    stays pending, and `reset` logs nothing else. -/
+theorem abort_reset (s : State) :
+    (∀ id ∈ pendingIds s, Ev.done id false ∈ s.reset.log) ∧ pendingIds s.reset = [] ∧
+    (∃ evs, s.reset.log = evs ++ s.log ∧ ∀ e, e ∈ evs ↔ ∃ id ∈ pendingIds s, e = .done id false) :=
+  ⟨reset_completes s, reset_pending s, resetEvents s, (reset_fields s).1, resetEvents_spec s⟩
+
+/-- `TransportLayer.stop()` (threaded wrapper), on the logic layer -/
+theorem abort_stop (t : TL) :
+    (∀ id ∈ pendingIds t.core, Ev.done id false ∈ t.stop.1.core.log) ∧ pendingIds t.stop.1.core = [] ∧
+    (∃ evs, t.stop.1.core.log = evs ++ t.core.log ∧ ∀ e, e ∈ evs ↔ ∃ id ∈ pendingIds t.core, e = .done id false) :=
+  ⟨fun id h => (stop_completes t id h).1, by rw [stop_core]; split <;> exact reset_pending _,
+   resetEvents t.core, stop_log t, resetEvents_spec t.core⟩
+
+/-- Flow Control *Overflow* -/
+theorem abort_overflow (s : State) (r : Req) (f : FcFrame) (hp : s.pendingFc = false)
+    (hf : s.lastFc = some f) (h2 : f.status = 2) (ha : s.active = some r) :
+    s.processTx.1.log = .err s.now .Overflow :: .done r.id false :: s.log ∧ s.processTx.1.active = none ∧
+      s.processTx.1.txState = .idle ∧ s.processTx.2.1 = none :=
+  overflow_aborts s r f hp hf h2 ha
+
+/-- N_Bs timeout -/
+theorem abort_fcTimeout (s : State) (r : Req) (hp : s.pendingFc = false) (hf : s.lastFc = none)
+    (ht : s.timerFc.timedOut s.now = true) (ha : s.active = some r) :
+    Ev.done r.id false ∈ s.processTx.1.log ∧ Ev.err s.now .FlowControlTimeout ∈ s.processTx.1.log :=
+  fcTimeout_aborts s r hp hf ht ha
+
+/-- `MaximumWaitFrameReachedError` -/
+theorem abort_maxWaitFrame (s : State) (r : Req) (f : FcFrame) (hp : s.pendingFc = false)
+    (hf : s.lastFc = some f) (h1 : f.status = 1) (hst : s.txState ≠ .idle)
+    (ht : s.timerFc.timedOut s.now = false) (hw0 : s.cfg.wftmax ≠ 0) (hw : s.wftCnt ≥ s.cfg.wftmax)
+    (ha : s.active = some r) :
+    Ev.done r.id false ∈ s.processTx.1.log ∧ Ev.err s.now .MaximumWaitFrameReached ∈ s.processTx.1.log :=
+  maxWaitFrame_aborts s r f hp hf h1 hst ht hw0 hw ha
+
+/-- `BadGeneratorError` when the Single / First Frame is built (`startTx` is the IDLE branch of
+    `_process_tx` after the request was dequeued) -/
+theorem abort_badGenerator_start (s : State) (r : Req) (allowed : Nat) (ha : s.active = some r)
+    (hbad : (r.consume (if r.size + sfOff s r + s.txPrefixLen ≤ s.cfg.txDl then r.size else ffDataLen s r.size) true).2
+      = none) :
+    Ev.done r.id false ∈ (s.startTx r allowed).1.log ∧ Ev.err s.now .BadGenerator ∈ (s.startTx r allowed).1.log ∧
+      (s.startTx r allowed).1.active = none ∧ (s.startTx r allowed).1.txState = .idle ∧
+      (s.startTx r allowed).2 = none :=
+  badGenerator_start s r allowed ha hbad
+
+/-- `BadGeneratorError` in TRANSMIT_CF: the generator runs dry before the declared size -/
+theorem abort_badGenerator_cf (s : State) (allowed : Nat) (r : Req) (rbs : Nat) (g : Good s)
+    (hst : s.txState = .transmitCf) (hrbs : s.remoteBs = some rbs) (ha : s.active = some r)
+    (ht : s.timerStmin.timedOut s.now = true) (hal : cfLen s r ≤ allowed) (hshort : r.src.length < cfLen s r) :
+    Ev.done r.id false ∈ (s.transmitCf allowed).1.log ∧ Ev.err s.now .BadGenerator ∈ (s.transmitCf allowed).1.log ∧
+      (s.transmitCf allowed).1.active = none :=
+  badGenerator_cf s allowed r rbs g hst hrbs ha ht hal hshort
+
+/-! ## 3. Success is not signalled before the last frame -/
+
+/-- `TxActiveInv`: while a transmission is in progress and no frame waits in standby, the generator of
+    the active request is not depleted (there are still bytes to send). -/
+theorem txActiveInv (s : State) (g : Good s) (r : Req) (ha : s.active = some r) (_hst : s.txState ≠ .idle)
+    (hsb : s.standby = none) : r.depleted = false := by
+  cases hd : r.depleted
+  · rfl
+  · have := (g.2.act r ha hd).2; simp [hsb] at this
+
+/-- hence the line "active request depleted and nothing in standby → `_stop_sending(success=True)`" of
+    `_process_tx` is dead code on reachable states (its guard is false)… -/
+theorem depleted_line_dead (s : State) (g : Good s) :
+    (s.txState ≠ .idle && (match s.active with | some r => r.depleted | none => false) && s.standby.isNone) = false := by
+  cases ha : s.active with
+  | none => simp
+  | some r =>
+    by_cases hst : s.txState = .idle
+    · simp [hst]
+    · cases hsb : s.standby with
+      | none => simp [txActiveInv s g r ha hst hsb]
+      | some m => simp
+
+/-- …while on a state violating the invariant it does signal success although no frame is output
+    (request 7 is "in transmission", depleted, FSM in WAIT_FC). -/
+example :
+    let s : State := { State.init {} ⟨default, default⟩ with
+      txState := .waitFc, active := some { id := 7, size := 3, src := [], consumed := 3 } }
+    s.processTx.1.log = [Ev.done 7 true] ∧ s.processTx.2.1 = none := by decide +kernel
+
+/-- **success_late.** In a `_process_tx` call entered in a reachable state (no exception pending — the
+    model stops at the first Python exception), every new `complete(True)` is justified
+    (`Justified`): the payload is empty, or the frame this very call returns is the request's last frame
+    (its Single Frame — fresh or released from standby — or the Consecutive Frame carrying all the
+    remaining bytes). So success is never logged in a pass before the one that outputs the last frame. -/
+theorem success_late (s : State) (g : Good s) (hx : s.exc = none) :
+    ∃ evs, s.processTx.1.log = evs ++ s.log ∧
+      ∀ id, Ev.done id true ∈ evs → Justified s s.processTx.2.1 id :=
+  processTx_success_late s g hx
+
+/-- no other operation of the layer logs a completion with `success = True`: the receive side logs no
+    completion at all … -/
+theorem rx_logs_no_completion (doTx : Bool) (s : State) (st : Stats) (l : List (Nat × CanMsg)) :
+    doneIds (rxLoop doTx s st l).1 = doneIds s := by
+  rw [doneIds_eq, doneIds_eq]; exact (key_eq (rxLoop_key doTx s st l)).1
+
+/-- … and `stop_sending()` / `reset()` only log failures. -/
+theorem aborts_log_no_success (s : State) :
+    succL (s.stopSending false).log = succL s.log ∧ succL s.reset.log = succL s.log := by
+  constructor
+  · simpa using (stopSending_fields s false).2.2.2.2.2.2.2.2.1
+  · rw [(reset_fields s).1, succL_append]
+    have : succL (resetEvents s) = [] := by
+      apply List.eq_nil_iff_forall_not_mem.2
+      intro id hid
+      obtain ⟨id', -, h⟩ := (resetEvents_spec s _).1 ((mem_succL id _).1 hid)
+      cases h
+    rw [this]; rfl
+
+/-! ## 4. Blocking send: the outcome the caller waits for is well defined -/
+
+/-- with `blocking_send`, an accepted `send` enqueues the request and (model of `send_timeout = 0`)
+    raises `BlockingSendTimeout`; the caller's request is pending -/
+theorem blocking_send (s : State) (a : SendArgs) (hb : s.cfg.blocking = true) :
+    ((s.send a).2 = some .ValueError ∧ (s.send a).1 = s) ∨
+    ((s.send a).2 = some .BlockingSendTimeout ∧ a.id ∈ pendingIds (s.send a).1) := by
+  rcases send_cases s a with h | ⟨h1, -, h3⟩
+  · exact .inl h
+  · right
+    refine ⟨by simpa [hb] using h1, ?_⟩
+    rw [h3, mem_pendingIds]
+    exact .inr ⟨mkReq s a, by simp, rfl⟩
+
+/-- **The outcome is unique.** With distinct ids, a request has at most one outcome in the log: the
+    `success` flag the blocked caller reads after `complete_event` is set ("returns normally" vs
+    `BlockingSendFailure`) is well defined. -/
+theorem outcome_unique (c : Cfg) (a : Addr) (hc : c.valid = true) (ops : List Op)
+    (hd : (accepted (State.init c a) ops).Nodup) (id : Nat) (b b' : Bool)
+    (h1 : Ev.done id b ∈ (run (State.init c a) ops).log) (h2 : Ev.done id b' ∈ (run (State.init c a) ops).log) :
+    b = b' := by
+  have := (exactly_once c a hc ops hd).2.1
+  rw [doneIds_eq] at this
+  exact outcome_unique_of_nodup _ this id b b' h1 h2
+
+/-- **No caller stays blocked.** Once the layer no longer holds an accepted request (neither queued nor
+    in transmission), its completion event has been set, with exactly one outcome. -/
+theorem not_pending_done (c : Cfg) (a : Addr) (hc : c.valid = true) (ops : List Op)
+    (hd : (accepted (State.init c a) ops).Nodup) (id : Nat) (hid : id ∈ accepted (State.init c a) ops)
+    (hnp : id ∉ pendingIds (run (State.init c a) ops)) :
+    ∃ b, Ev.done id b ∈ (run (State.init c a) ops).log ∧
+      ∀ b', Ev.done id b' ∈ (run (State.init c a) ops).log → b' = b := by
+  rcases (exactly_once c a hc ops hd).2.2.2.1 id hid with ⟨h, -⟩ | ⟨-, hcnt⟩
+  · exact absurd h hnp
+  · have hm : id ∈ doneIds (run (State.init c a) ops) := List.count_pos_iff.1 (by omega)
+    obtain ⟨b, hb⟩ := (mem_doneIds _ id).1 hm
+    exact ⟨b, hb, fun b' hb' => outcome_unique c a hc ops hd id b' b hb' hb⟩
+
+/-! ## Non-vacuity: concrete layers and histories -/
+
+/-- normal 11-bit addressing, tx 0x123 / rx 0x456 -/
+def exAddr : Addr :=
+  let h : Half := { mode := .n11, txid := some 0x123, rxid := some 0x456, ta := none, sa := none, ae := none,
+                    physId := 0, funcId := 0, rxOnly := false, txOnly := false }
+  { tx := h, rx := h }
+
+def exCfg : Cfg := {}
+def exInit : State := State.init exCfg exAddr
+def bytes (n : Nat) : Bytes := (List.range n).map u8
+def fcFrame (status : Nat) : CanMsg := { id := 0x456, ext := false, data := [u8 (0x30 + status), 0, 0] }
+
+example : exCfg.valid = true := by decide
+example : Good exInit := good_init _ _ (by decide)
+
+/-- three sends (a Single Frame, an empty payload, a multi-frame), a rejected send, a `process`,
+    one more send, a `reset` -/
+def exOps : List Op :=
+  [ .send { id := 1, size := 3, src := bytes 3 },
+    .send { id := 2, size := 0, src := [] },
+    .send { id := 3, size := 20, src := bytes 20 },
+    .send { id := 4, size := -1, src := [] },
+    .process true true,
+    .send { id := 5, size := 2, src := bytes 2 },
+    .reset ]
+
+example : accepted exInit exOps = [1, 2, 3, 5] := by decide +kernel
+example : (accepted exInit exOps).Nodup := by decide +kernel
+-- after the `process`: 1 (SF) and 2 (empty) succeeded, 3 waits for a Flow Control
+example : doneIds (run exInit (exOps.take 5)) = [1, 2] ∧ pendingIds (run exInit (exOps.take 5)) = [3] := by
+  decide +kernel
+-- after the `reset`: the queued 5 fails first, then the active 3 (a permutation of the accepted ids)
+example : (run exInit exOps).log.filterMap (fun | .done i b => some (i, b) | _ => none) =
+    [(3, false), (5, false), (2, true), (1, true)] := by decide +kernel
+example : accounted (run exInit exOps) = [1, 2, 5, 3] := by decide +kernel
+example : Good (run exInit exOps) := good_run _ _ (good_init _ _ (by decide))
+
+/-- multi-frame request, First Frame sent, waiting for the Flow Control -/
+def exWaitFc : State := run exInit [.send { id := 3, size := 20, src := bytes 20 }, .process true true]
+
+example : exWaitFc.txState = .waitFc ∧ exWaitFc.active.map (·.id) = some 3 ∧ exWaitFc.pendingFc = false ∧
+    exWaitFc.lastFc = none ∧ exWaitFc.exc = none := by decide +kernel
+example : Idle exWaitFc := (good_run _ _ (good_init _ _ (by decide))).2.idle
+
+-- Overflow Flow Control: request 3 fails (hypotheses of `abort_overflow`)
+example : (run exWaitFc [.frame 0 (fcFrame 2), .process true true]).log.take 2 =
+    [Ev.err 0 .Overflow, Ev.done 3 false] := by decide +kernel
+example : let s : State := { exWaitFc with lastFc := some ⟨2, 0, 0⟩ }
+    s.pendingFc = false ∧ s.lastFc = some ⟨2, 0, 0⟩ ∧ s.active.map (·.id) = some 3 ∧
+    s.processTx.1.log.take 2 = [Ev.err 0 .Overflow, Ev.done 3 false] := by decide +kernel
+
+-- N_Bs timeout (hypotheses of `abort_fcTimeout`)
+example : let s := exWaitFc.advance 2000000000
+    s.pendingFc = false ∧ s.lastFc = none ∧ s.timerFc.timedOut s.now = true ∧ s.active.map (·.id) = some 3 ∧
+    Ev.done 3 false ∈ s.processTx.1.log := by decide +kernel
+
+-- too many Wait frames (hypotheses of `abort_maxWaitFrame`)
+example : let s : State := { exWaitFc with cfg := { exCfg with wftmax := 1 }, wftCnt := 1, lastFc := some ⟨1, 0, 0⟩ }
+    s.pendingFc = false ∧ s.txState ≠ .idle ∧ s.timerFc.timedOut s.now = false ∧ s.cfg.wftmax ≠ 0 ∧
+    s.wftCnt ≥ s.cfg.wftmax ∧ s.active.map (·.id) = some 3 ∧ Ev.done 3 false ∈ s.processTx.1.log := by
+  decide +kernel
+
+-- BadGenerator at start: 20 bytes declared, generator yields 2 (hypothesis of `abort_badGenerator_start`)
+example : (run exInit [.send { id := 6, size := 20, src := bytes 2 }, .process true true]).log.filterMap
+    (fun | .done i b => some (i, b) | _ => none) = [(6, false)] := by decide +kernel
+-- BadGenerator in TRANSMIT_CF: 20 bytes declared, generator yields 8
+example : (run exInit [.send { id := 6, size := 20, src := bytes 8 }, .process true true,
+    .frame 0 (fcFrame 0), .process true true]).log.filterMap
+    (fun | .done i b => some (i, b) | _ => none) = [(6, false)] := by decide +kernel
+
+/-- the complete transfer: FF, Flow Control (CTS), two Consecutive Frames -/
+def exDone : State := run exWaitFc [.frame 0 (fcFrame 0), .process true true]
+
+-- success is logged in the pass that returns the last Consecutive Frame (sequence number 2), and
+-- the frame reaches `txfn` right after
+example : exDone.log.take 3 =
+    [Ev.tx 0 { id := 0x123, ext := false, data := [0x22, 13, 14, 15, 16, 17, 18, 19], dlc := 8 },
+     Ev.done 3 true,
+     Ev.tx 0 { id := 0x123, ext := false, data := [0x21, 6, 7, 8, 9, 10, 11, 12], dlc := 8 }] := by decide +kernel
+example : exDone.exc = none ∧ pendingIds exDone = [] := by decide +kernel
+-- `stop_sending()` during the transfer (hypothesis of `abort_stopSending`)
+example : (run exWaitFc [.stopSending]).log.head? = some (Ev.done 3 false) := by decide +kernel
+
+-- `TransportLayer.stop()` with one request in transmission and one queued
+example : let t : TL := { core := run exWaitFc [.send { id := 8, size := 1, src := bytes 1 }], started := true,
+                          mainThread := .running, relayThread := .running }
+    pendingIds t.core = [3, 8] ∧
+    t.stop.1.core.log.take 2 = [Ev.done 3 false, Ev.done 8 false] ∧ pendingIds t.stop.1.core = [] := by
+  decide +kernel
+
+-- blocking send: `BlockingSendTimeout`, request queued
+example : let s := State.init { exCfg with blocking := true } exAddr
+    (s.send { id := 1, size := 3, src := bytes 3 }).2 = some .BlockingSendTimeout ∧
+    pendingIds (s.send { id := 1, size := 3, src := bytes 3 }).1 = [1] := by decide +kernel
+
+-- without distinct ids the outcome is not unique (the hypothesis of `outcome_unique` is needed)
+example : let s := run exInit [.send { id := 1, size := 1, src := bytes 1 }, .process true true,
+                               .send { id := 1, size := 1, src := bytes 1 }, .reset]
+    Ev.done 1 true ∈ s.log ∧ Ev.done 1 false ∈ s.log := by decide +kernel
+
 end Isotp.C12
+
+#print axioms Isotp.C12.conserved_processRx
+#print axioms Isotp.C12.conserved_checkTimeoutsRx
+#print axioms Isotp.C12.conserved_processTx
+#print axioms Isotp.C12.conserved_rxLoop
+#print axioms Isotp.C12.conserved_txLoop
+#print axioms Isotp.C12.conserved_processLoop
+#print axioms Isotp.C12.conserved_process
+#print axioms Isotp.C12.conserved_stopSending
+#print axioms Isotp.C12.conserved_stopReceiving
+#print axioms Isotp.C12.conserved_recv
+#print axioms Isotp.C12.conserved_advance
+#print axioms Isotp.C12.conserved_pushFrame
+#print axioms Isotp.C12.conserved_reset
+#print axioms Isotp.C12.send_accepted
+#print axioms Isotp.C12.send_rejected
+#print axioms Isotp.C12.good_init
+#print axioms Isotp.C12.good_step
+#print axioms Isotp.C12.good_run
+#print axioms Isotp.C12.conserved_run
+#print axioms Isotp.C12.exactly_once
+#print axioms Isotp.C12.abort_stopSending
+#print axioms Isotp.C12.abort_reset
+#print axioms Isotp.C12.abort_stop
+#print axioms Isotp.C12.abort_overflow
+#print axioms Isotp.C12.abort_fcTimeout
+#print axioms Isotp.C12.abort_maxWaitFrame
+#print axioms Isotp.C12.abort_badGenerator_start
+#print axioms Isotp.C12.abort_badGenerator_cf
+#print axioms Isotp.C12.txActiveInv
+#print axioms Isotp.C12.depleted_line_dead
+#print axioms Isotp.C12.success_late
+#print axioms Isotp.C12.rx_logs_no_completion
+#print axioms Isotp.C12.aborts_log_no_success
+#print axioms Isotp.C12.blocking_send
+#print axioms Isotp.C12.outcome_unique
+#print axioms Isotp.C12.not_pending_done
